@@ -398,6 +398,11 @@ def compare(real, spec, path, out, fn_checks):
         if spec[1] is not None or real[1] is not None:
             compare(real[1], spec[1], path + '/enum-sub', out, fn_checks)
         compare_enum(real[2], real[3], spec[2], spec[3], path, out)
+        if len(spec) > 4:
+            for v, n in sorted(spec[4].items(), key=repr):
+                if real[2].get(v) != n:
+                    out.append('%s: enum decodes %r to %r; the specific table names it %r, which takes precedence' % (path, v, real[2].get(v), n))
+                    break
         return
     if type(real) != type(spec):
         out.append('%s: %r != %r' % (path, _short(real), _short(spec)))
